@@ -10,6 +10,7 @@ CONSTANTS
   EnvOps <- EnvOpsDef
   KillCarriesState = TRUE
   Once = TRUE
+  Local = {}
   MonPairs = {}
   Undecodable = {}
 INVARIANTS
